@@ -3,6 +3,7 @@
 // construction; algebraic laws (reflexive, symmetric, transitive, != is the negation).
 #include <algorithm>
 #include <cstring>
+#include <deque>
 #include <functional>
 
 #include "common/genjson.hpp"
@@ -170,6 +171,31 @@ static std::string make(Src& s, DocT& d, const MV& v, int h) {
     case H_BUILD: build(d, v, a, true); break;
     case H_BUILD_PERMUTED: build(d, permuted(s, v), a, true); break;
     case H_COPY: {
+      if (s.coin(1, 2)) {
+        // the source BORROWS every string and member name from caller memory (SetString(ptr,len), copyKey=false); the copy is
+        // made with copyString=true, then the source dies and the caller's memory is overwritten
+        std::deque<std::string> lent;
+        {
+          Document src;
+          std::function<void(Node&, const MV&)> borrow = [&](Node& n, const MV& m) {
+            if (m.k == MV::Str) { lent.push_back(m.s); n.SetString(lent.back().data(), lent.back().size()); }
+            else if (m.k == MV::Arr) { n.SetArray(); for (auto& e : m.a) { Node c; borrow(c, e); n.PushBack(std::move(c), src.GetAllocator()); } }
+            else if (m.k == MV::Obj) {
+              n.SetObject();
+              for (auto& kv : m.o) {
+                Node c;
+                borrow(c, kv.second);
+                lent.push_back(kv.first);
+                n.AddMember(StringView(lent.back().data(), lent.back().size()), std::move(c), src.GetAllocator(), false);
+              }
+            } else build(n, m, src.GetAllocator(), true);
+          };
+          borrow(src, v);
+          d.CopyFrom(src, a, true);
+        }
+        for (auto& t : lent) std::fill(t.begin(), t.end(), '#');
+        break;
+      }
       Document src;
       build(src, v, src.GetAllocator(), true);
       d.CopyFrom(src, a, s.coin(1, 2));
